@@ -19,7 +19,9 @@ from lib.clifcheck import Prover
 from props import c01
 
 LEVEL = 'translation_validation'
-POOL = ['a', 'b', 'c']
+# `f32` and `str` are also built-in type names: a global, parameter or local of that name comes first in the lookup order
+# ("... then a global of the same file, then a built-in type name or `nil`")
+POOL = ['a', 'b', 'c', 'f32', 'str']
 
 
 class Gen:
@@ -118,7 +120,7 @@ def run(chk, tier, seed):
                     'explanation': 'programs = generated files; each entry function is compared with the reference scoping semantics on every path pair, all inputs symbolic'})
     chk.cov.update(stats)
     chk.bounds.update({'identifier_pool': POOL, 'nesting_depth': 2 if tier == 'quick' else 3, 'binding_kinds': ['file global', 'function parameter', 'block local', 'shadowing re-declaration', 'switch-arm argument', 'helper-function parameter'],
-                       'outside_claim': ['the rejection half (UndefinedRef)', 'comptime parameters and inline header references', 'built-in type names and nil as fallback', 'imports']})
+                       'outside_claim': ['the rejection half (UndefinedRef)', 'comptime parameters and inline header references', '`nil` as a user-defined name', 'imports']})
     chk.assumptions.extend(['reference scoping = property statement + README (lib/refsem.py)', 'data objects (global constants) are read from the object file the compiler wrote', 'Cranelift opcode semantics as documented'])
 
 
